@@ -223,4 +223,24 @@ theorem onResult_KInv (s s' : Sched) (tid r : Nat) (v : Rat) (hint : Bool) (cost
                   · rw [h4]; exact hinv.nodup
                   · rw [c3.nodup_iff, List.nodup_cons]; exact ⟨hnotin, hinv.nodup⟩
 
+
+/-- reports at `resource ≥ max_t` are answered "do not continue" without touching the manager
+(same statement as `C03.stop_at_max`, kept here for the lemma files) -/
+theorem C03_stop_at_max (g g' : Manager) (tid r : Nat) (v : Rat) (hint : Bool) (cost eps : Rat) (o : RepOut)
+    (h : g.taskReport tid r v hint cost eps = .ok (g', o)) (hr : g.maxT ≤ r) :
+    o.continues = false ∧ g' = g := by
+  have hlt : ¬ r < g.maxT := by omega
+  unfold Manager.taskReport at h
+  cases h1 : alookup tid g.taskInfo with
+  | none => simp [h1] at h
+  | some b =>
+    simp only [h1] at h
+    cases h2 : g.systems[(g.sysFor b).1]? with
+    | none => simp [h2] at h
+    | some sys =>
+      simp only [h2, hlt, if_false] at h
+      injection h with h
+      injection h with ha hb
+      subst ha; subst hb; simp
+
 end SyneTune
